@@ -7,7 +7,10 @@
 
     * `WhyB`, `KeyStepB`          `Spec.Why` / `Spec.KeyStep` plus ONE cause / clause, `sweptLive` (`keyStepB_iff`).
     * `JustifiedB b a k why`      which action of which thread at which position justifies which cause for which key;
-      `JustifiedH h b a k why`    … plus the two facts about EARLIER actions that the state does not remember.
+      `JustifiedH h b a k why`    … plus the facts about EARLIER actions that the state does not remember (`evicted`:
+                                  the put did not fit; the sweeper's causes: `VisitedDue`, and — fix 36c87dc —
+                                  `CheckedExpired`: the cell WAS expired at the sweeper's check; `sweptLive`: …
+                                  and a `rewritten` step of the key followed, `RewrittenIn`).
     * `refinesB`                  every reachable `b`, every action `stepB b a o = .ok (b', o')`, EVERY key `k`:
                                   `∃ why, KeyStepB … why (cell before) (cell after) ∧ JustifiedB b a k why`
                                   (`refinesB_inv`: from `WAbsent`, `BInv`, `SweepInv`, the sweep clock);
@@ -21,21 +24,29 @@
       ALONE:  `read_stable_stepB` (`mayChangeReadB`), `expiredRemoved_keeps_look`, `cleared_keeps_read`,
       `no_foreign_valueB` (`…_read`), `delete_hidesB`, `get_never_serves_expiredB`, `get_not_hidden_before_deadlineB`
       (the abstract `never_serves_expired` / `not_hidden_before_deadline` of Spec/Refine.lean speak about `S` only and
-      apply to `abs b.g` as they are), `no_loss_without_causeB`, `readable_loss_to_sweeper`,
-      `run_refinesB` (`KeyChainB`), `KeyChainB.needs_worker`.
+      apply to `abs b.g` as they are), `no_loss_without_causeB`, `readable_loss_is_sweptLive`,
+      `run_refinesB` (`KeyChainB`), `KeyChainB.needs_worker`;  with the history (section 9, from `refinesB` and
+      `C10_layerB_removes_only_expired_at_check` of LayerB/Sweep.lean): `sweeper_removal_checked`,
+      `sweptLive_needs_rewrite`, `readable_loss_to_sweeper`, `sweep_keeps_look_without_rewrite`.
     * non-vacuity: every cause on a concrete interleaving (section 10), every corollary's hypotheses (section 12).
 
   THE DEVIATIONS FROM Spec.lean (section 11 has the witness of each; nothing else is weakened):
 
    1. `sweptLive` — NEW CAUSE.  `KeyStep.expiredRemoved` demands that the removed cell be expired AT THE MOMENT OF THE
-      REMOVAL.  The sweeper decides at its VISIT (`sweep.entry`), on the deadline the INDEX holds, and removes three
-      actions later whatever entry the key holds under the same id; `put_or_update` rewrites the stored deadline in
-      between (or: two racing `put_or_update`s have left the index stale for good).  `sweptLive (c)`: the sweeper removes
-      a cell that is NOT expired — possibly one without any deadline.  A user loses: "a sweep never changes what a read
-      returns" (`read_stable`), "a readable key disappears only by delete / eviction under pressure / shutdown".
-      What remains (`SweeperRemoves`, `JustifiedH`): it is the sweeper's `store.remove` of the id under which the key is
-      stored, and the history holds the visit at which the index deadline of that id had passed.
-      Witnesses: `sweptLive_real`, `sweptLive_stale_index` (a FINDING: no call in flight, no deadline).
+      REMOVAL.  The sweeper CHECKS the stored value at its `kw.remove` action (fix 36c87dc, `unexpiredWithId`: it goes
+      on only if the value stored under the id has expired by its OWN deadline) and removes two actions later whatever
+      entry the key holds under the same id; a `put_or_update` may rewrite the stored deadline of the EXPIRED, not yet
+      removed entry in between (known finding D3).  `sweptLive (c)`: the sweeper removes a cell that is NOT expired.
+      A user loses: "a sweep never changes what a read returns" (`read_stable`) — but only for a key that WAS expired
+      (no read returned it) and was brought back by a `put_or_update` racing with its removal.
+      What remains (`SweeperRemoves`, `JustifiedH`, `sweptLive_needs_rewrite`): it is the sweeper's `store.remove` of
+      the id under which the key is stored; the history holds the visit at which the index deadline of that id had
+      passed, AND the sweeper's check (`kw.remove`) at which the key's cell — stored under that id — WAS EXPIRED,
+      AND, after the check, a `rewritten` step of that key.  Without a `rewritten` step of `k` no sweep changes a
+      lookup of `k` (`sweep_keeps_look_without_rewrite`: Layer A's `read_stable` for sweeps, restored).
+      Witness: `sweptLive_real`.  The two runs that witnessed it BEFORE the fix (the upsert after the sweeper's VISIT
+      but before its check; the index left stale by two overlapping upserts, defect D12) now keep the key:
+      `second_race_fixed`, `stale_index_key_survives`.
    2. `cleared` is the ONE action `shutdown.store_clear` (the seventh of twelve), with the flag already up — not "the end
       of `shutdown()`".  Between `shutdown.cas` and it cells exist while `read` reports absent; after it the call has not
       returned; after the call HAS returned cells may appear again (`installed` by a worker that stood at `store.put`).
@@ -107,8 +118,9 @@ inductive WhyB where
   | deleted
   /-- the sweeper's `store.remove` ACTION, the cell being expired at that moment (no reader could see it any more) -/
   | expiredRemoved
-  /-- **NEW (deviation 1).**  The sweeper's `store.remove` ACTION, the cell being NOT expired at that moment: the index
-      deadline the sweeper found due at its visit is no longer (or never was) the deadline of the stored value.
+  /-- **NEW (deviation 1).**  The sweeper's `store.remove` ACTION, the cell being NOT expired at that moment: the cell
+      WAS expired when the sweeper checked it (`kw.remove`, two sweeper actions earlier) and a `put_or_update` has
+      rewritten its deadline since (`JustifiedH`, `sweptLive_needs_rewrite`).
       A user loses: the guarantee that the sweeper removes only what no reader could see. -/
   | sweptLive
   /-- the worker's `store.remove` ACTION of an eviction, inside a put of ANOTHER key that did not fit when the worker
@@ -646,6 +658,12 @@ theorem KeyStepB.expiredRemoved_inv {now now' : Nat} {c c' : Option Cell}
   cases h with
   | expiredRemoved x hn hx => exact ⟨x, rfl, rfl, hx, hn⟩
 
+theorem KeyStepB.sweptLive_inv {now now' : Nat} {c c' : Option Cell}
+    (h : KeyStepB now now' .sweptLive c c') :
+    ∃ x, c = some x ∧ c' = none ∧ x.expired now = false ∧ now' = now := by
+  cases h with
+  | sweptLive x hn hx => exact ⟨x, rfl, rfl, hx, hn⟩
+
 theorem KeyStepB.hidden_inv {now now' : Nat} {c c' : Option Cell} (h : KeyStepB now now' .hidden c c') :
     c' = none := by
   cases h; rfl
@@ -866,8 +884,9 @@ theorem no_loss_without_causeB {cfg : Cfg} {now : Nat} {seeds : List Nat} {clien
   · exact Or.inr (Or.inr (Or.inr (Or.inl hj)))
   · exact Or.inr (Or.inr (Or.inr (Or.inr hj)))
 
-/-- … and a READABLE cell (flag down, not expired) that is lost to the sweeper is lost for the cause `sweptLive` -/
-theorem readable_loss_to_sweeper {cfg : Cfg} {now : Nat} {seeds : List Nat} {clients : Nat} {b b' : BState}
+/-- … and a READABLE cell (flag down, not expired) that is lost to the sweeper is lost for the cause `sweptLive`
+    (the statement that needs no history; with the history: `readable_loss_to_sweeper` in section 9) -/
+theorem readable_loss_is_sweptLive {cfg : Cfg} {now : Nat} {seeds : List Nat} {clients : Nat} {b b' : BState}
     {v : Option Nat} {o o' : Oracle} (hr : B.Reach cfg now seeds clients b)
     (h : stepB b (.sweeper v) o = .ok (b', o')) {k val : Nat} (hl : (abs b.g).look k = some val)
     (hl' : (abs b'.g).look k = none) :
@@ -947,7 +966,9 @@ theorem KeyChainB.needs_worker {k : Nat} {b b' : BState} {l : List (Act × Oracl
 
   Two Layer A premises speak about the moment of the removal and are false at that moment in Layer B (section 10):
   "the evicting put does not fit the free space" and "the swept cell is expired".  What holds is a fact about an EARLIER
-  action of the same thread, which the state does not remember: `JustifiedH` adds it to `JustifiedB`. -/
+  action of the same thread, which the state does not remember: `JustifiedH` adds it to `JustifiedB`.  For the sweeper
+  (after fix 36c87dc): the swept cell WAS expired when the sweeper checked it at `kw.remove`, and it is not expired
+  at the removal only if a `put_or_update` rewrote it in between. -/
 
 theorem reach_runH {cfg : Cfg} {now : Nat} {seeds : List Nat} {clients : Nat} {b0 b : BState}
     {h : List (BState × Act)} (hr : B.Reach cfg now seeds clients b0) (hrun : RunH b0 h b) :
@@ -1026,9 +1047,152 @@ theorem sweepHist_run {cfg : Cfg} {now0 : Nat} {seeds : List Nat} {clients : Nat
   | nil => exact h0
   | step hprev hs ih => exact sweepHist_step (reach_runH hr hprev) ih hs
 
+/-! #### the sweeper's CHECK (`kw.remove`, fix 36c87dc) in the history -/
+
+/-- a history `h1 ++ p :: h2` (latest first) splits at `p`: a run up to the state of `p`, and a run from it -/
+theorem runH_split {b0 : BState} {p : BState × Act} {h2 : List (BState × Act)} :
+    ∀ (h1 : List (BState × Act)) {b : BState}, RunH b0 (h1 ++ p :: h2) b →
+      RunH b0 h2 p.1 ∧ RunH p.1 (h1 ++ [p]) b := by
+  intro h1
+  induction h1 with
+  | nil =>
+    intro b hr
+    obtain ⟨pb, pa⟩ := p
+    cases hr with
+    | step hprev hs => exact ⟨hprev, .step (.nil _) hs⟩
+  | cons x h1 ih =>
+    intro b hr
+    cases hr with
+    | step hprev hs =>
+      obtain ⟨hl, hrest⟩ := ih hprev
+      exact ⟨hl, .step hrest hs⟩
+
+/-- an entry stored under an id that is nobody's fresh id, and NOT soft-deleted after an action, was there under the
+    same id and not soft-deleted before it: only `store.put` lowers the mark, and it writes a fresh id -/
+theorem soft_back_step {b b' : BState} {a : Act} {o o' : Oracle} (h : stepB b a o = .ok (b', o'))
+    {k id : Nat} (hocc : occ b id = 0) {e' : Entry} (hk' : b'.g.store.get? k = some e') (hid : e'.id = id)
+    (hsoft : e'.soft = false) : ∃ e, b.g.store.get? k = some e ∧ e.id = id ∧ e.soft = false := by
+  have heff := stepB_storeEff h
+  cases heff
+  case same hs => exact ⟨e', by rw [← hs]; exact hk', hid, hsoft⟩
+  case put c exp hwp hx hwr hs =>
+    by_cases hk : c.k = k
+    · subst hk
+      rw [hs, AMap.get?_set_same] at hk'
+      cases hk'
+      have hpos : 0 < occ b c.id := by simp [occ, hwp, WPc.freshId?]
+      simp only [] at hid
+      rw [hid] at hpos; omega
+    · rw [hs, AMap.get?_set_other _ _ hk] at hk'; exact ⟨e', hk', hid, hsoft⟩
+  case del k' hh e hwd he hs =>
+    by_cases hk : k' = k
+    · subst hk; rw [hs, AMap.get?_del_same] at hk'; cases hk'
+    · rw [hs, AMap.get?_del_other _ hk] at hk'; exact ⟨e', hk', hid, hsoft⟩
+  case evict c inc s id' wk hwe hs =>
+    by_cases hk : wk.key = k
+    · subst hk; rw [hs, AMap.get?_del_same] at hk'; cases hk'
+    · rw [hs, AMap.get?_del_other _ hk] at hk'; exact ⟨e', hk', hid, hsoft⟩
+  case sweep v now sh rest id' wk hsw hm hs =>
+    by_cases hk : wk.key = k
+    · subst hk; rw [hs, AMap.get?_del_same] at hk'; cases hk'
+    · rw [hs, AMap.get?_del_other _ hk] at hk'; exact ⟨e', hk', hid, hsoft⟩
+  case mark i k' e hpc he hs =>
+    by_cases hk : k' = k
+    · subst hk; rw [hs, AMap.get?_set_same] at hk'; cases hk'; cases hsoft
+    · rw [hs, AMap.get?_set_other _ _ hk] at hk'; exact ⟨e', hk', hid, hsoft⟩
+  case upsert i k' v w ttl rm e exp hpc he hx hs =>
+    by_cases hk : k' = k
+    · subst hk; rw [hs, AMap.get?_set_same] at hk'; cases hk'
+      exact ⟨e, he, hid, hsoft⟩
+    · rw [hs, AMap.get?_set_other _ _ hk] at hk'; exact ⟨e', hk', hid, hsoft⟩
+  case clear i hpc hs => rw [hs] at hk'; cases hk'
+
+theorem occ_run {p1 b : BState} {hh : List (BState × Act)} (hrun : RunH p1 hh b) {id : Nat}
+    (hocc : occ p1 id = 0) (hlt : id < p1.g.nextId) : occ b id = 0 ∧ id < b.g.nextId := by
+  induction hrun with
+  | nil => exact ⟨hocc, hlt⟩
+  | step _ hs ih =>
+    obtain ⟨h1, h2⟩ := ih
+    obtain ⟨h3, h4⟩ := swB_step_occ hs id h2
+    exact ⟨by omega, by omega⟩
+
+/-- … along a run: EVERY state of the history held the entry under that id, not soft-deleted -/
+theorem soft_back_run {p1 b : BState} {hh : List (BState × Act)} (hrun : RunH p1 hh b) {k id : Nat}
+    (hocc : occ p1 id = 0) (hlt : id < p1.g.nextId) :
+    ∀ {e : Entry}, b.g.store.get? k = some e → e.id = id → e.soft = false →
+      ∀ q ∈ hh, ∃ eq, q.1.g.store.get? k = some eq ∧ eq.id = id ∧ eq.soft = false := by
+  induction hrun with
+  | nil => intro e _ _ _ q hq; cases hq
+  | @step bm b' hh' a o o' hprev hs ih =>
+    intro e hk hid hsoft q hq
+    obtain ⟨em, hkm, hidm, hsm⟩ := soft_back_step hs (occ_run hprev hocc hlt).1 hk hid hsoft
+    rcases List.mem_cons.mp hq with rfl | hq
+    · exact ⟨em, hkm, hidm, hsm⟩
+    · exact ih hkm hidm hsm q hq
+
+/-- the part `h1` of a history holds a `rewritten` step of key `k`: the `upsert.update` action of a `put_or_update(k)`
+    (justified as `rewritten`), run in a state in which `k` HAD a cell (so the step is `KeyStepB.rewritten`, not
+    `unchanged`) -/
+def RewrittenIn (h1 : List (BState × Act)) (k : Nat) : Prop :=
+  ∃ q ∈ h1, ∃ v ttl rm cq, JustifiedB q.1 q.2 k (.rewritten v ttl rm) ∧ (abs q.1.g).cells k = some cq
+
+/-- **The sweeper's check in the history.**  `h = h1 ++ p :: h2` (latest first) where `p` is the sweeper's `kw.remove`
+    action of the eviction of `id` in the sweep `(now, sh, rest)`; `h1` — what happened since — holds exactly ONE sweeper
+    action (the `wu.sub`); and IN THE STATE OF `p`: `id` was charged for key `k`, `k` was stored under `id`, and the
+    cell of `k` was `c0`, EXPIRED (`c0.expired = true` for the clock of `p`: no lookup at `p` found it). -/
+def CheckedExpired (h h1 : List (BState × Act)) (now sh : Nat) (rest : List (Nat × Nat)) (id k : Nat) (c0 : Cell) :
+    Prop :=
+  ∃ p h2, h = h1 ++ p :: h2 ∧ (∃ v, p.2 = .sweeper v) ∧ p.1.sw = .kwRemove now sh rest id ∧
+    (h1.filter (fun q => swB_isSweeper q.2)).length = 1 ∧
+    (∃ wk, p.1.g.adm.kw.get? id = some wk ∧ wk.key = k) ∧
+    (∃ e0, p.1.g.store.get? k = some e0 ∧ e0.id = id) ∧
+    (abs p.1.g).cells k = some c0 ∧ c0.expired (abs p.1.g).now = true
+
+/-- **What the history holds when the sweeper's `store.remove` takes a cell away** (from
+    `C10_layerB_removes_only_expired_at_check` of LayerB/Sweep.lean, plus: the soft-delete mark is never lowered under
+    one id).  The sweeper stands at `store.remove` of the eviction of `id`, key `wk.key` is stored under `id` and has a
+    cell.  Then the history holds the sweeper's check of this eviction, at which the key's cell `c0` was EXPIRED; and
+    the cell removed now IS `c0` (and is expired now as well) — or a `rewritten` step of the key lies in between. -/
+theorem sweeper_removal_checked {cfg : Cfg} {now0 : Nat} {seeds : List Nat} {clients : Nat}
+    {b0 b b' : BState} {h : List (BState × Act)} {v : Option Nat} {o o' : Oracle} {now sh id : Nat}
+    {rest : List (Nat × Nat)} {wk : WKey} {e : Entry}
+    (hr0 : B.Reach cfg now0 seeds clients b0) (hrun : RunH b0 h b) (h0 : b0.sw.victim? = none)
+    (hs : stepB b (.sweeper v) o = .ok (b', o')) (hsw : b.sw = .store now sh rest id wk)
+    (hk : b.g.store.get? wk.key = some e) (hid : e.id = id) (hsoft : e.soft = false) :
+    ∃ h1 c0, CheckedExpired h h1 now sh rest id wk.key c0 ∧
+      (((⟨e.value, e.expiry⟩ : Cell) = c0 ∧ c0.expired b.g.now = true) ∨ RewrittenIn h1 wk.key) := by
+  obtain ⟨_, h1, p, h2, rfl, hp, hpsw, hn, hkw, hu, hnow, e0, t, hk0, hid0, ht, hgt, hcase⟩ :=
+    C10_layerB_removes_only_expired_at_check hr0 hrun h0 hs hsw hk hid
+  obtain ⟨hrun2, hrun1⟩ := runH_split h1 hrun
+  have hrp := reach_runH hr0 hrun2
+  obtain ⟨hocc, hlt⟩ := (binv_reach hrp).freshIds.2.2.2.2.1 id (by rw [← hid0]; exact store_id_used hk0)
+  have hall := soft_back_run hrun1 hocc hlt hk hid hsoft
+  obtain ⟨e0', hk0', _, hs0⟩ := hall p (by simp)
+  rw [hk0] at hk0'; cases hk0'
+  have hc0 : (abs p.1.g).cells wk.key = some ⟨e0.value, e0.expiry⟩ := by
+    show cellOf (p.1.g.store.get? wk.key) = _
+    rw [hk0]; simp [cellOf, hs0]
+  have hx0 : Cell.expired ⟨e0.value, e0.expiry⟩ (abs p.1.g).now = true := by
+    show Cell.expired ⟨e0.value, e0.expiry⟩ p.1.g.now = true
+    simp [Cell.expired, ht, hgt]
+  refine ⟨h1, _, ⟨p, h2, rfl, hp, hpsw, hn, ⟨wk, hkw, rfl⟩, ⟨e0, hk0, hid0⟩, hc0, hx0⟩, ?_⟩
+  rcases hcase with ⟨h5, h6, h7⟩ | ⟨q, hq, i, v', w, ttl, rm, hqa, hqpc⟩
+  · left
+    exact ⟨by rw [h5, h6, ht], by simp [Cell.expired, ht, h7]⟩
+  · right
+    obtain ⟨eq, hkq, _, hsq⟩ := hall q (List.mem_append_left _ hq)
+    refine ⟨q, hq, v', ttl, rm, ⟨eq.value, eq.expiry⟩, ⟨i, w, hqa, hqpc⟩, ?_⟩
+    show cellOf (q.1.g.store.get? wk.key) = _
+    rw [hkq]; simp [cellOf, hsq]
+
 /-- `JustifiedB` plus the facts about the past: for `evicted` the put being applied DID NOT FIT when the worker first
-    read the free space (`wu.space` at `space0`); for the sweeper's two causes the deadline the INDEX held for the id
-    had passed when the sweeper VISITED it. -/
+    read the free space (`wu.space` at `space0`); for the sweeper's two causes
+    * the deadline the INDEX held for the id had passed when the sweeper VISITED it (`VisitedDue`), and
+    * (fix 36c87dc) the key's cell, stored under that id, WAS EXPIRED when the sweeper CHECKED it at `kw.remove`
+      (`CheckedExpired`), and
+      - `expiredRemoved`: the cell removed now is that very cell, or a `rewritten` step of the key lies in between;
+      - `sweptLive`: a `rewritten` step of the key lies between the check and the removal — NOTHING else makes the
+        sweeper remove a cell that is not expired. -/
 def JustifiedH (h : List (BState × Act)) (b : BState) (a : Act) (k : Nat) (why : WhyB) : Prop :=
   JustifiedB b a k why ∧
   match why with
@@ -1036,8 +1200,10 @@ def JustifiedH (h : List (BState × Act)) (b : BState) (a : Act) (k : Nat) (why 
       (∃ p ∈ h, p.2 = .worker ∧ p.1.w = .space0 c ∧ p.1.g.adm.max - p.1.g.adm.used < c.w) ∧
       (∃ p ∈ h, p.2 = .worker ∧ (p.1.w = .space0 c ∨ ∃ e' s', p.1.w = .evSpace c e' s') ∧
         p.1.g.adm.max - p.1.g.adm.used < c.w)
-  | .expiredRemoved => ∃ now sh rest id wk, b.sw = .store now sh rest id wk ∧ VisitedDue h now sh id
-  | .sweptLive => ∃ now sh rest id wk, b.sw = .store now sh rest id wk ∧ VisitedDue h now sh id
+  | .expiredRemoved => ∃ now sh rest id wk, b.sw = .store now sh rest id wk ∧ VisitedDue h now sh id ∧
+      ∃ h1 c0, CheckedExpired h h1 now sh rest id k c0 ∧ ((abs b.g).cells k = some c0 ∨ RewrittenIn h1 k)
+  | .sweptLive => ∃ now sh rest id wk, b.sw = .store now sh rest id wk ∧ VisitedDue h now sh id ∧
+      ∃ h1 c0, CheckedExpired h h1 now sh rest id k c0 ∧ RewrittenIn h1 k
   | _ => True
 
 /-- **refinesH**: along every interleaving from an initial state (worker at `recv`, sweeper at `sweep.begin`), with
@@ -1050,6 +1216,7 @@ theorem refinesH {cfg : Cfg} {now : Nat} {seeds : List Nat} {clients : Nat} {b0 
       JustifiedH h b a k why := by
   have hr := reach_runH hr0 hrun
   have hsh : SweepHist h b.sw := sweepHist_run hr0 hrun (by rw [hs0]; trivial)
+  have hv0 : b0.sw.victim? = none := by rw [hs0]; rfl
   obtain ⟨why, hks, hj⟩ := refinesB hr hs k
   refine ⟨why, hks, hj, ?_⟩
   cases why with
@@ -1057,14 +1224,120 @@ theorem refinesH {cfg : Cfg} {now : Nat} {seeds : List Nat} {clients : Nat} {b0 
     obtain ⟨_, c, e, s, id, wk, hw, _, _⟩ := hj
     exact ⟨c, e, s, id, wk, hw, C03_layerB_eviction_under_pressure hrun hw0 hw⟩
   | expiredRemoved =>
-    obtain ⟨v, n, sh, rest, id, wk, _, hsw, _⟩ := hj
+    obtain ⟨v, n, sh, rest, id, wk, rfl, hsw, rfl, _, ⟨en, hen, hid⟩, _⟩ := hj
     rw [hsw] at hsh
-    exact ⟨n, sh, rest, id, wk, hsw, hsh⟩
+    obtain ⟨x, hc, _, _, _⟩ := hks.expiredRemoved_inv
+    obtain ⟨e, he, hsoft, rfl⟩ := cellOf_eq_some.mp (show cellOf (b.g.store.get? wk.key) = some x from hc)
+    rw [hen] at he; cases he
+    obtain ⟨h1, c0, hchk, hcase⟩ := sweeper_removal_checked hr0 hrun hv0 hs hsw hen hid hsoft
+    refine ⟨n, sh, rest, id, wk, hsw, hsh, h1, c0, hchk, ?_⟩
+    rcases hcase with ⟨heq, _⟩ | hrw
+    · exact Or.inl (by rw [hc, heq])
+    · exact Or.inr hrw
   | sweptLive =>
-    obtain ⟨v, n, sh, rest, id, wk, _, hsw, _⟩ := hj
+    obtain ⟨v, n, sh, rest, id, wk, rfl, hsw, rfl, _, ⟨en, hen, hid⟩, _⟩ := hj
     rw [hsw] at hsh
-    exact ⟨n, sh, rest, id, wk, hsw, hsh⟩
+    obtain ⟨x, hc, _, hx, _⟩ := hks.sweptLive_inv
+    obtain ⟨e, he, hsoft, rfl⟩ := cellOf_eq_some.mp (show cellOf (b.g.store.get? wk.key) = some x from hc)
+    rw [hen] at he; cases he
+    obtain ⟨h1, c0, hchk, hcase⟩ := sweeper_removal_checked hr0 hrun hv0 hs hsw hen hid hsoft
+    refine ⟨n, sh, rest, id, wk, hsw, hsh, h1, c0, hchk, ?_⟩
+    rcases hcase with ⟨heq, hexp⟩ | hrw
+    · rw [← heq] at hexp
+      have hx' : Cell.expired ⟨en.value, en.expiry⟩ b.g.now = false := hx
+      rw [hx'] at hexp; cases hexp
+    · exact hrw
   | _ => trivial
+
+/-- a cell lost in an action of the SWEEPER: it is the sweeper's `store.remove` of the id under which the key is stored -/
+theorem sweeper_loss {cfg : Cfg} {now : Nat} {seeds : List Nat} {clients : Nat} {b b' : BState} {v : Option Nat}
+    {o o' : Oracle} (hr : B.Reach cfg now seeds clients b) (h : stepB b (.sweeper v) o = .ok (b', o')) {k : Nat}
+    {x : Cell} (hc : (abs b.g).cells k = some x) (hc' : (abs b'.g).cells k = none) :
+    SweeperRemoves b (.sweeper v) k := by
+  rcases no_loss_without_causeB hr h hc hc' with ⟨_, h1, _⟩ | ⟨h1, _⟩ | h1 | ⟨h1, _⟩ | ⟨_, h1, _⟩
+  · cases h1
+  · cases h1
+  · exact h1
+  · cases h1
+  · cases h1
+
+/-- **sweptLive_needs_rewrite: `sweptLive` without an intervening `rewritten` step is impossible** (fix 36c87dc).
+    Along any interleaving from a reachable state in which the sweeper is not in the middle of an eviction: if an
+    action of the sweeper takes away a cell of `k` that is NOT expired, then it is the `store.remove` of the eviction
+    of the id `k` is stored under, the history holds the sweeper's check (`kw.remove`) of this eviction at which the
+    cell of `k` — under the same id — WAS EXPIRED, and AFTER that check a `rewritten` step of `k`
+    (`upsert.update` of a `put_or_update(k)`: known finding D3, it revives an expired entry in place). -/
+theorem sweptLive_needs_rewrite {cfg : Cfg} {now0 : Nat} {seeds : List Nat} {clients : Nat} {b0 b b' : BState}
+    {h : List (BState × Act)} {v : Option Nat} {o o' : Oracle} (hr0 : B.Reach cfg now0 seeds clients b0)
+    (hrun : RunH b0 h b) (h0 : b0.sw.victim? = none) (hs : stepB b (.sweeper v) o = .ok (b', o')) {k : Nat}
+    {x : Cell} (hc : (abs b.g).cells k = some x) (hx : x.expired (abs b.g).now = false)
+    (hc' : (abs b'.g).cells k = none) :
+    ∃ now sh rest id wk h1 c0, b.sw = .store now sh rest id wk ∧ wk.key = k ∧
+      CheckedExpired h h1 now sh rest id k c0 ∧ RewrittenIn h1 k := by
+  obtain ⟨_, n, sh, rest, id, wk, _, hsw, rfl, _, ⟨en, hen, hid⟩, _⟩ := sweeper_loss (reach_runH hr0 hrun) hs hc hc'
+  obtain ⟨e, he, hsoft, rfl⟩ := cellOf_eq_some.mp (show cellOf (b.g.store.get? wk.key) = some x from hc)
+  rw [hen] at he; cases he
+  obtain ⟨h1, c0, hchk, hcase⟩ := sweeper_removal_checked hr0 hrun h0 hs hsw hen hid hsoft
+  refine ⟨n, sh, rest, id, wk, h1, c0, hsw, rfl, hchk, ?_⟩
+  rcases hcase with ⟨heq, hexp⟩ | hrw
+  · rw [← heq] at hexp
+    have hx' : Cell.expired ⟨en.value, en.expiry⟩ b.g.now = false := hx
+    rw [hx'] at hexp; cases hexp
+  · exact hrw
+
+/-- **readable_loss_to_sweeper** (with the history): a READABLE cell (not expired) that is lost to the sweeper is lost
+    for the cause `sweptLive`, WAS EXPIRED at the sweeper's check, and was rewritten by a `put_or_update` after it. -/
+theorem readable_loss_to_sweeper {cfg : Cfg} {now0 : Nat} {seeds : List Nat} {clients : Nat} {b0 b b' : BState}
+    {h : List (BState × Act)} {v : Option Nat} {o o' : Oracle} (hr0 : B.Reach cfg now0 seeds clients b0)
+    (hrun : RunH b0 h b) (h0 : b0.sw.victim? = none) (hs : stepB b (.sweeper v) o = .ok (b', o')) {k val : Nat}
+    (hl : (abs b.g).look k = some val) (hl' : (abs b'.g).look k = none) :
+    ∃ x, KeyStepB (abs b.g).now (abs b'.g).now .sweptLive (some x) none ∧ (abs b.g).cells k = some x ∧
+      SweeperRemoves b (.sweeper v) k ∧
+      ∃ now sh rest id wk h1 c0, b.sw = .store now sh rest id wk ∧ wk.key = k ∧
+        CheckedExpired h h1 now sh rest id k c0 ∧ RewrittenIn h1 k := by
+  obtain ⟨x, hks, hc, hj⟩ := readable_loss_is_sweptLive (reach_runH hr0 hrun) hs hl hl'
+  obtain ⟨x', hx', _, hx, _⟩ := hks.sweptLive_inv
+  cases hx'
+  obtain ⟨_, n, sh, rest, id, wk, _, hsw, hkey, _, ⟨en, hen, hid⟩, _⟩ := hj
+  have hc' : (abs b'.g).cells k = none := by
+    subst hkey
+    show cellOf (b'.g.store.get? wk.key) = none
+    rw [(C10_layerB_storeRemove_matching hsw (swB_sweeper_step hs) hen hid).2]; rfl
+  exact ⟨x, hks, hc, ⟨_, n, sh, rest, id, wk, rfl, hsw, hkey, by assumption, ⟨en, hen, hid⟩, by assumption⟩,
+    sweptLive_needs_rewrite hr0 hrun h0 hs hc hx hc'⟩
+
+/-- **Layer A's `read_stable` for sweeps, restored for keys nobody rewrites**: along any interleaving from a reachable
+    state in which the sweeper is not in the middle of an eviction and whose history holds NO `rewritten` step of `k`
+    (no `upsert.update` action of a `put_or_update(k)`), NO action of the sweeper changes what a lookup or a read of
+    `k` finds. -/
+theorem sweep_keeps_look_without_rewrite {cfg : Cfg} {now0 : Nat} {seeds : List Nat} {clients : Nat}
+    {b0 b b' : BState} {h : List (BState × Act)} {v : Option Nat} {o o' : Oracle}
+    (hr0 : B.Reach cfg now0 seeds clients b0) (hrun : RunH b0 h b) (h0 : b0.sw.victim? = none)
+    (hs : stepB b (.sweeper v) o = .ok (b', o')) (k : Nat)
+    (hno : ∀ q ∈ h, ∀ v ttl rm, ¬ JustifiedB q.1 q.2 k (.rewritten v ttl rm)) :
+    (abs b'.g).look k = (abs b.g).look k ∧ (abs b'.g).read k = (abs b.g).read k := by
+  have hr := reach_runH hr0 hrun
+  obtain ⟨_, hnow, _, _, hshut, _⟩ := refinesB_global hs
+  have hn : (abs b'.g).now = (abs b.g).now := hnow (by intro d hd; cases hd)
+  have hsh : (abs b'.g).shut = (abs b.g).shut := hshut (by intro i hi; cases hi)
+  have hlook : (abs b'.g).look k = (abs b.g).look k := by
+    obtain ⟨why, hks, hj⟩ := refinesB hr hs k
+    cases why with
+    | unchanged => exact look_stable hks hn
+    | expiredRemoved => exact expiredRemoved_keeps_look hks
+    | sweptLive =>
+      exfalso
+      obtain ⟨x, hc, hc', hx, _⟩ := hks.sweptLive_inv
+      obtain ⟨_, _, _, _, _, h1, _, _, _, ⟨p, h2, rfl, _⟩, q, hq, v', ttl, rm, _, hjq, _⟩ :=
+        sweptLive_needs_rewrite hr0 hrun h0 hs hc hx hc'
+      exact hno q (List.mem_append_left _ hq) v' ttl rm hjq
+    | installed v ttl => cases hj.1
+    | rewritten v ttl rm => obtain ⟨_, _, hj1, _⟩ := hj; cases hj1
+    | hidden => obtain ⟨_, hj1, _⟩ := hj; cases hj1
+    | deleted => cases hj.1
+    | evicted => cases hj.1
+    | cleared => obtain ⟨_, hj1, _⟩ := hj; cases hj1
+  exact ⟨hlook, by rw [read_eq_look, read_eq_look, hsh, hlook]⟩
 
 /-! ### 10. non-vacuity: every cause on a concrete interleaving
 
@@ -1133,18 +1406,26 @@ example : ∃ b, runB entInit (baseB ++ [(.advance 10, noO)] ++ sweepTo) = .ok b
   · exact KeyStepB.expiredRemoved ⟨100, some 5⟩ rfl rfl
   · exact ⟨none, _, _, _, _, _, rfl, rfl, rfl, by decide, ⟨_, rfl, rfl⟩, rfl⟩
 
-/-- the second race of LayerB/Sweep.lean: the sweeper finds the deadline 5 of id 1 due (clock 10); the `upsert.update`
-    action of `put_or_update(1, time_to_live 1000)` extends the deadline of the stored value to 1010; the sweeper goes
-    on to its `store.remove` -/
+/-- the race that is left (known finding D3; `C10_layerB_upsert_after_check_loses_key` of LayerB/Sweep.lean): clock 10,
+    the deadline 5 of key 1 (id 1) has passed; the sweeper visits id 1 and CHECKS it (`kw.remove`: the stored value has
+    expired by its own deadline, the charge goes); THEN the `upsert.update` action of `put_or_update(1, time_to_live
+    1000)` gives the expired entry the deadline 1010; the sweeper goes on (`wu.sub`) to its `store.remove` -/
 def sweptLiveRun : List (Act × Oracle) :=
-  baseB ++ [(.advance 10, noO), (.sweeper none, noO), (.sweeper (some 1), noO)] ++
-  call 0 (.upsert 1 none none (some 1000) false) 2 ++ [(.sweeper none, noO), (.sweeper none, noO)]
+  baseB ++ [(.advance 10, noO), (.sweeper none, noO), (.sweeper (some 1), noO), (.sweeper none, noO)] ++
+  call 0 (.upsert 1 none none (some 1000) false) 2 ++ [(.sweeper none, noO)]
 
 /-- `sweptLive` -/
 example : ∃ b, runB entInit sweptLiveRun = .ok b ∧ ExhibitsB b (.sweeper none) noO 1 .sweptLive := by
   refine ⟨_, rfl, _, _, rfl, ?_, ?_⟩
   · exact KeyStepB.sweptLive ⟨100, some 1010⟩ rfl rfl
   · exact ⟨none, _, _, _, _, _, rfl, rfl, rfl, by decide, ⟨_, rfl, rfl⟩, rfl⟩
+
+/-- the second race of LayerB/Sweep.lean as it was BEFORE fix 36c87dc (it was the `sweptLive` run then): the `upsert.update`
+    comes after the sweeper's VISIT of id 1 but BEFORE its check; the last two sweeper actions were `kw.remove` and
+    `wu.sub` then — now the first of them SKIPS (the stored deadline 1010 is ahead) and the second ends the sweep -/
+def secondRaceRun : List (Act × Oracle) :=
+  baseB ++ [(.advance 10, noO), (.sweeper none, noO), (.sweeper (some 1), noO)] ++
+  call 0 (.upsert 1 none none (some 1000) false) 2 ++ [(.sweeper none, noO), (.sweeper none, noO)]
 
 /-- `evicted`: key 1 (weight 3) is in; a put of key 2 with weight 8 does not fit (`pressureRun` of LayerB/Entries.lean);
     the worker's `store.remove` of the eviction of key 1 -/
@@ -1193,14 +1474,79 @@ example : ∃ h b b' o', RunH entInit h b ∧ stepB b .worker noO = .ok (b', o')
   exact ⟨h, b, b', o', hr, hs,
     refinesH (B.Reach.init (cfg := cfgEx) (now := 0) (seeds := [1, 2, 3, 4]) (clients := 2) []) rfl rfl hr hs 1⟩
 
-/-! ### 11. the deviations from Spec.lean are REAL: the Layer A clause is false on a reachable interleaving -/
-
 set_option maxRecDepth 10000
 
-/-- **Deviation 1 (`sweptLive`).**  `KeyStep.expiredRemoved` demands that the cell the sweeper removes be expired at the
-    moment of the removal.  FALSE at action granularity: on `sweptLiveRun` the sweeper's `store.remove` takes away the
+/-- `refinesH` / `sweptLive_needs_rewrite` / `readable_loss_to_sweeper` instantiated on `sweptLiveRun`: the hypotheses
+    hold (the cell `⟨100, deadline 1010⟩` is readable at clock 10 and is lost to the sweeper), so the history holds the
+    check at which the cell was expired and a `rewritten` step after it -/
+example : ∃ h b b', RunH entInit h b ∧ stepB b (.sweeper none) noO = .ok (b', noO) ∧
+    (abs b.g).look 1 = some 100 ∧ (abs b'.g).look 1 = none ∧
+    (∃ why, KeyStepB (abs b.g).now (abs b'.g).now why ((abs b.g).cells 1) ((abs b'.g).cells 1) ∧
+      JustifiedH h b (.sweeper none) 1 why) ∧
+    ∃ now sh rest id wk h1 c0, b.sw = .store now sh rest id wk ∧ wk.key = 1 ∧
+      CheckedExpired h h1 now sh rest id 1 c0 ∧ RewrittenIn h1 1 := by
+  have hh : ∃ h b b', RunH entInit h b ∧ stepB b (.sweeper none) noO = .ok (b', noO) ∧
+      (abs b.g).look 1 = some 100 ∧ (abs b'.g).look 1 = none := by
+    have h1 : ∃ h b, histOf entInit sweptLiveRun [] = .ok (h, b) ∧ ∃ b', stepB b (.sweeper none) noO = .ok (b', noO) ∧
+        (abs b.g).look 1 = some 100 ∧ (abs b'.g).look 1 = none := ⟨_, _, rfl, _, rfl, rfl, rfl⟩
+    obtain ⟨h, b, hrun, b', hs, hl, hl'⟩ := h1
+    exact ⟨h, b, b', runH_histOf (b0 := entInit) _ (.nil _) hrun, hs, hl, hl'⟩
+  obtain ⟨h, b, b', hrun, hs, hl, hl'⟩ := hh
+  have hr0 := B.Reach.init (cfg := cfgEx) (now := 0) (seeds := [1, 2, 3, 4]) (clients := 2) []
+  obtain ⟨_, _, _, _, hrest⟩ := readable_loss_to_sweeper hr0 hrun rfl hs hl hl'
+  exact ⟨h, b, b', hrun, hs, hl, hl', refinesH hr0 rfl rfl hrun hs 1, hrest⟩
+
+/-- `CheckedExpired` / `RewrittenIn` on `sweptLiveRun`, explicitly: the check is the 4th action from the end of the
+    history (after it: the `issue`, two client actions — the second is the `upsert.update` —, `wu.sub`); in its state the
+    cell of key 1 was `⟨100, deadline 5⟩` at clock 10 — expired; the cell removed is `⟨100, deadline 1010⟩` -/
+example : ∃ h b, histOf entInit sweptLiveRun [] = .ok (h, b) ∧
+    (match h with
+     | q3 :: q2 :: _q1 :: _q0 :: p :: _ =>
+       (match p.2, p.1.sw with | .sweeper none, .kwRemove 10 0 [] 1 => true | _, _ => false) &&
+       decide ((abs p.1.g).cells 1 = some ⟨100, some 5⟩) && Cell.expired ⟨100, some 5⟩ (abs p.1.g).now &&
+       (match q3.2, q3.1.sw with | .sweeper none, .sub 10 0 [] 1 _ => true | _, _ => false) &&
+       (match q2.2, q2.1.cl[0]? with
+        | .client 0, some (CPc.upUpdate 1 none none (some 1000) false) => true
+        | _, _ => false) &&
+       decide ((abs q2.1.g).cells 1 = some ⟨100, some 5⟩) && decide ((abs b.g).cells 1 = some ⟨100, some 1010⟩)
+     | _ => false) = true := ⟨_, _, rfl, by decide⟩
+
+/-- the action `q` is not the `upsert.update` of a `put_or_update(k)` -/
+def noRewriteOf (k : Nat) (q : BState × Act) : Bool :=
+  match q.2 with
+  | .client i => (match q.1.cl[i]? with | some (.upUpdate k' _ _ _ _) => k' != k | _ => true)
+  | _ => true
+
+theorem noRewriteOf_spec {k : Nat} {h : List (BState × Act)} (hall : h.all (noRewriteOf k) = true) :
+    ∀ q ∈ h, ∀ v ttl rm, ¬ JustifiedB q.1 q.2 k (.rewritten v ttl rm) := by
+  intro q hq v ttl rm ⟨i, w, ha, hpc⟩
+  have := List.all_eq_true.mp hall q hq
+  simp [noRewriteOf, ha, hpc] at this
+
+/-- `sweep_keeps_look_without_rewrite`: its hypotheses hold on the ordinary sweep (no `put_or_update` at all: the
+    expired key 1 is removed, cause `expiredRemoved`, and no lookup changes) -/
+example : ∃ h b b', RunH entInit h b ∧ stepB b (.sweeper none) noO = .ok (b', noO) ∧
+    (∀ q ∈ h, ∀ v ttl rm, ¬ JustifiedB q.1 q.2 1 (.rewritten v ttl rm)) ∧
+    (abs b.g).cells 1 = some ⟨100, some 5⟩ ∧ (abs b'.g).cells 1 = none ∧ (abs b'.g).look 1 = (abs b.g).look 1 := by
+  have h1 : ∃ h b, histOf entInit (baseB ++ [(.advance 10, noO)] ++ sweepTo) [] = .ok (h, b) ∧
+      h.all (noRewriteOf 1) = true ∧ ∃ b', stepB b (.sweeper none) noO = .ok (b', noO) ∧
+      (abs b.g).cells 1 = some ⟨100, some 5⟩ ∧ (abs b'.g).cells 1 = none :=
+    ⟨_, _, rfl, by decide, _, rfl, rfl, rfl⟩
+  obtain ⟨h, b, hrun, hall, b', hs, hc, hc'⟩ := h1
+  have hr := runH_histOf (b0 := entInit) _ (.nil _) hrun
+  exact ⟨h, b, b', hr, hs, noRewriteOf_spec hall, hc, hc',
+    (sweep_keeps_look_without_rewrite (B.Reach.init (cfg := cfgEx) (now := 0) (seeds := [1, 2, 3, 4]) (clients := 2) [])
+      hr rfl hs 1 (noRewriteOf_spec hall)).1⟩
+
+/-! ### 11. the deviations from Spec.lean are REAL: the Layer A clause is false on a reachable interleaving -/
+
+/-- **Deviation 1 (`sweptLive`) is still REAL after fix 36c87dc.**  `KeyStep.expiredRemoved` demands that the cell the
+    sweeper removes be expired at the moment of the removal.  FALSE at action granularity: on `sweptLiveRun` (the
+    `upsert.update` comes AFTER the sweeper's check, known finding D3) the sweeper's `store.remove` takes away the
     cell `⟨100, deadline 1010⟩` of key 1 at clock 10 — a `get(1)` returned 100 before the action and returns nothing
-    after it — and neither of the two causes Layer A allows a sweep (`unchanged`, `expiredRemoved`) fits. -/
+    after it — and neither of the two causes Layer A allows a sweep (`unchanged`, `expiredRemoved`) fits.
+    (The cell WAS expired — deadline 5 — when the sweeper checked it, and was rewritten since: `sweptLive_needs_rewrite`;
+    the run on which this theorem was proved before the fix is now `second_race_fixed`.) -/
 theorem sweptLive_real :
     ∃ b b', B.Reach cfgEx 0 [1, 2, 3, 4] 2 b ∧ stepB b (.sweeper none) noO = .ok (b', noO) ∧
       SweeperRemoves b (.sweeper none) 1 ∧ b.g.now = 10 ∧
@@ -1230,35 +1576,80 @@ theorem sweptLive_real :
 /-- two `put_or_update`s of key 1 interleave: client 0 (`time_to_live 1000`) rewrites the stored deadline 5 → 1000, then
     client 1 (`remove_time_to_live`) rewrites 1000 → none; client 1 brings the index up to date first (`ttl.delete`: the
     entry `(0, 1)` goes), then client 0 (`ttl.update`: remove, insert `(0, 1) ↦ 1000`); both calls return, the worker
-    runs both `UpdateWeight` commands; much later (clock 2000) the sweeper visits id 1 -/
+    runs both `UpdateWeight` commands; much later (clock 2000) the sweeper visits id 1 (`sweepTo`; after fix 36c87dc
+    its last two actions are the `kw.remove` that SKIPS and `sweep.end`, no longer `kw.remove` and `wu.sub`) -/
 def staleIndexRun : List (Act × Oracle) :=
   baseB ++ call 0 (.upsert 1 none (some 3) (some 1000) false) 2 ++ call 1 (.upsert 1 none (some 3) none true) 5 ++
   List.replicate 4 (.client 0, noO) ++ workerN 4 ++ [(.advance 2000, noO)] ++ sweepTo
 
-/-- **Deviation 1, second witness — a FINDING about the code the model transcribes.**  The removed cell need not even
-    HAVE a deadline, and NO call need be in flight.  Two interleaved `put_or_update`s of one key leave the expiry index
-    out of step with the stored value for good (each brings the index from the deadline IT read to the deadline IT
-    wrote; the two index updates may run in the opposite order of the two store updates): here the stored value has NO
-    deadline (`remove_time_to_live` was the LAST to write it, the call returned, its command was accepted) while the
-    index says `1000`.  With every client idle, the queue empty and the worker at `recv`, the sweeper at clock 2000
-    removes the cell `⟨100, no deadline⟩`. -/
-theorem sweptLive_stale_index :
-    ∃ b b', B.Reach cfgEx 0 [1, 2, 3, 4] 2 b ∧ stepB b (.sweeper none) noO = .ok (b', noO) ∧
-      SweeperRemoves b (.sweeper none) 1 ∧
-      b.cl = [.idle, .idle] ∧ b.g.queue = [] ∧ (match b.w with | .recv => True | _ => False) ∧
-      b.g.acks = [.accepted, .accepted, .accepted] ∧
-      (abs b.g).cells 1 = some ⟨100, none⟩ ∧ (abs b'.g).cells 1 = none ∧
-      (abs b.g).read 1 = some 100 ∧ (abs b'.g).read 1 = none := by
-  have hrun : ∃ b, runB entInit staleIndexRun = .ok b ∧ ∃ b', stepB b (.sweeper none) noO = .ok (b', noO) ∧
-      SweeperRemoves b (.sweeper none) 1 ∧
-      b.cl = [.idle, .idle] ∧ b.g.queue = [] ∧ (match b.w with | .recv => True | _ => False) ∧
-      b.g.acks = [.accepted, .accepted, .accepted] ∧
-      (abs b.g).cells 1 = some ⟨100, none⟩ ∧ (abs b'.g).cells 1 = none ∧
-      (abs b.g).read 1 = some 100 ∧ (abs b'.g).read 1 = none := by
-    refine ⟨_, rfl, _, rfl, ⟨none, _, _, _, _, _, rfl, rfl, rfl, by decide, ⟨_, rfl, rfl⟩, rfl⟩, rfl, rfl, trivial,
-      rfl, rfl, rfl, rfl, rfl⟩
-  obtain ⟨b, hr, b', hs, rest⟩ := hrun
-  exact ⟨b, b', reach_ent hr, hs, rest⟩
+/-- **The run that witnessed `sweptLive` before fix 36c87dc now keeps the key (`sweptLive_real` as it was: D13).**
+    On `secondRaceRun` the `upsert.update` extends the deadline after the sweeper's VISIT but before its check: the
+    sweeper's `kw.remove` action finds the stored value unexpired (deadline 1010, clock 10), SKIPS, and the sweep ends.
+    The cell `⟨100, deadline 1010⟩` is there before and after every remaining sweeper action, `read 1 = 100`
+    throughout, the charge stays. -/
+theorem second_race_fixed :
+    ∃ b1 b2 b b', B.Reach cfgEx 0 [1, 2, 3, 4] 2 b1 ∧
+      b1.sw = .kwRemove 10 0 [] 1 ∧ unexpiredWithId b1.g 1 1 = true ∧        -- the check: the stored value is unexpired
+      stepB b1 (.sweeper none) noO = .ok (b2, noO) ∧ b2.sw = .fin ∧ abs b2.g = abs b1.g ∧   -- … the sweeper skips
+      stepB b2 (.sweeper none) noO = .ok (b, noO) ∧ runB entInit secondRaceRun = .ok b ∧
+      stepB b (.sweeper none) noO = .ok (b', noO) ∧ b.g.now = 10 ∧          -- the step that removed the cell before the fix
+      (abs b.g).cells 1 = some ⟨100, some 1010⟩ ∧ (abs b'.g).cells 1 = some ⟨100, some 1010⟩ ∧
+      (abs b.g).read 1 = some 100 ∧ (abs b'.g).read 1 = some 100 ∧
+      b'.g.adm.kw.get? 1 = some ⟨1, 1, 3⟩ ∧ b'.g.adm.used = 3 ∧
+      KeyStepB (abs b.g).now (abs b'.g).now .unchanged ((abs b.g).cells 1) ((abs b'.g).cells 1) := by
+  have hrun : ∃ b1, runB entInit (secondRaceRun.take (secondRaceRun.length - 2)) = .ok b1 ∧
+      b1.sw = .kwRemove 10 0 [] 1 ∧ unexpiredWithId b1.g 1 1 = true ∧
+      ∃ b2, stepB b1 (.sweeper none) noO = .ok (b2, noO) ∧ b2.sw = .fin ∧ abs b2.g = abs b1.g ∧
+      ∃ b, stepB b2 (.sweeper none) noO = .ok (b, noO) ∧ runB entInit secondRaceRun = .ok b ∧
+      ∃ b', stepB b (.sweeper none) noO = .ok (b', noO) ∧ b.g.now = 10 ∧
+      (abs b.g).cells 1 = some ⟨100, some 1010⟩ ∧ (abs b'.g).cells 1 = some ⟨100, some 1010⟩ ∧
+      (abs b.g).read 1 = some 100 ∧ (abs b'.g).read 1 = some 100 ∧
+      b'.g.adm.kw.get? 1 = some ⟨1, 1, 3⟩ ∧ b'.g.adm.used = 3 :=
+    ⟨_, rfl, rfl, rfl, _, rfl, rfl, rfl, _, rfl, rfl, _, rfl, rfl, rfl, rfl, rfl, rfl, rfl, rfl⟩
+  obtain ⟨b1, hr1, h1, h2, b2, h3, h4, h5, b, h6, h7, b', h8, h9, hc, hc', hrd, hrd', hkw, hu⟩ := hrun
+  refine ⟨b1, b2, b, b', reach_ent hr1, h1, h2, h3, h4, h5, h6, h7, h8, h9, hc, hc', hrd, hrd', hkw, hu, ?_⟩
+  rw [hc, hc']
+  exact .unchanged _ (C10_layerB_clock_monotone h8)
+
+/-- **The FINDING `sweptLive_stale_index` (defect D12) is repaired: on the SAME run the key survives.**  Two interleaved
+    `put_or_update`s of one key leave the expiry index out of step with the stored value (each brings the index from
+    the deadline IT read to the deadline IT wrote; the two index updates may run in the opposite order of the two store
+    updates — this is NOT repaired): the stored value has NO deadline while the index says `1000`.  With every client
+    idle, the queue empty and the worker at `recv`, the sweeper at clock 2000 visits id 1 (the stale index entry goes)
+    and at `kw.remove` finds the stored value unexpired: it SKIPS (before fix 36c87dc it removed the cell
+    `⟨100, no deadline⟩`).  After the sweep the cell is still there, still charged, `read 1 = 100`, and a `get(1)`
+    returns 100. -/
+theorem stale_index_key_survives :
+    ∃ b0 b, B.Reach cfgEx 0 [1, 2, 3, 4] 2 b ∧
+      runB entInit (staleIndexRun.take (staleIndexRun.length - 4)) = .ok b0 ∧         -- before the sweep:
+      b0.g.ttl = [((0, 1), 1000)] ∧ (abs b0.g).cells 1 = some ⟨100, none⟩ ∧ b0.g.now = 2000 ∧  -- index stale and due
+      b0.cl = [.idle, .idle] ∧ b0.g.queue = [] ∧ (match b0.w with | .recv => True | _ => False) ∧
+      b0.g.acks = [.accepted, .accepted, .accepted] ∧
+      runB entInit staleIndexRun = .ok b ∧ (match b.sw with | .begin => True | _ => False) ∧   -- after the whole sweep:
+      b.g.ttl = [] ∧                                                                   -- the stale index entry is gone
+      (abs b.g).cells 1 = some ⟨100, none⟩ ∧ (abs b.g).read 1 = some 100 ∧               -- the key is NOT
+      b.g.adm.kw.get? 1 = some ⟨1, 1, 3⟩ ∧ b.g.adm.used = 3 ∧
+      (match runB entInit (staleIndexRun ++ call 1 (.get 1) 2 ++ [(.client 1, { pool := [0] })]) with
+       | .ok b2 => decide (b2.res[1]? = some [.value (some 100), .ack 1 .pending])      -- `get(1)` returns 100
+       | .error _ => false) = true := by
+  have hrun : ∃ b0, runB entInit (staleIndexRun.take (staleIndexRun.length - 4)) = .ok b0 ∧
+      b0.g.ttl = [((0, 1), 1000)] ∧ (abs b0.g).cells 1 = some ⟨100, none⟩ ∧ b0.g.now = 2000 ∧
+      b0.cl = [.idle, .idle] ∧ b0.g.queue = [] ∧ (match b0.w with | .recv => True | _ => False) ∧
+      b0.g.acks = [.accepted, .accepted, .accepted] ∧
+      ∃ b, runB entInit staleIndexRun = .ok b ∧ (match b.sw with | .begin => True | _ => False) ∧
+      b.g.ttl = [] ∧ (abs b.g).cells 1 = some ⟨100, none⟩ ∧ (abs b.g).read 1 = some 100 ∧
+      b.g.adm.kw.get? 1 = some ⟨1, 1, 3⟩ ∧ b.g.adm.used = 3 :=
+    ⟨_, rfl, rfl, rfl, rfl, rfl, rfl, trivial, rfl, _, rfl, trivial, rfl, rfl, rfl, rfl, rfl⟩
+  obtain ⟨b0, h0, h1, h2, h3, h4, h5, h6, h7, b, hr, rest⟩ := hrun
+  obtain ⟨r1, r2, r3, r4, r5, r6⟩ := rest
+  exact ⟨b0, b, reach_ent hr, h0, h1, h2, h3, h4, h5, h6, h7, hr, r1, r2, r3, r4, r5, r6, by decide⟩
+
+/-- … and the skip itself on that run: the sweeper at `kw.remove` of id 1, the charge there, the stored value under id 1
+    without deadline (`unexpiredWithId = true`); the action moves on to `sweep.end` and changes nothing else -/
+example : ∃ b b', runB entInit (staleIndexRun.take (staleIndexRun.length - 2)) = .ok b ∧
+    b.sw = .kwRemove 2000 0 [] 1 ∧ b.g.adm.kw.get? 1 = some ⟨1, 1, 3⟩ ∧ unexpiredWithId b.g 1 1 = true ∧
+    stepB b (.sweeper none) noO = .ok (b', noO) ∧ b'.sw = .fin ∧ b'.g = b.g :=
+  ⟨_, _, rfl, rfl, rfl, rfl, rfl, rfl, rfl⟩
 
 /-- **Deviation 2 (`cleared`).**  "`shutdown()` ran to its end" is not when the cells go: they go in the SEVENTH of the
     call's twelve actions, `shutdown.store_clear`.  The flag is up since the second action (`shutdown.cas`): in between,
@@ -1488,12 +1879,13 @@ example : ∃ b5 b6, runB entInit (baseB ++ [(.advance 5, noO)] ++ call 1 (.get 
     (∃ b' o', stepB b6 (.client 1) noO = .ok (b', o') ∧ b'.res[1]? = some [.value none]) :=
   ⟨_, _, rfl, rfl, rfl, rfl, rfl, rfl, ⟨_, _, rfl, rfl⟩, ⟨_, _, rfl, rfl⟩⟩
 
-/-- `no_loss_without_causeB` / `readable_loss_to_sweeper` instantiated on `sweptLiveRun` -/
+/-- `no_loss_without_causeB` / `readable_loss_is_sweptLive` instantiated on `sweptLiveRun` (with the history:
+    `readable_loss_to_sweeper`, instantiated in section 10) -/
 example (b b' : BState) (h1 : runB entInit sweptLiveRun = .ok b) (h2 : stepB b (.sweeper none) noO = .ok (b', noO))
     (hl : (abs b.g).look 1 = some 100) (hl' : (abs b'.g).look 1 = none) :
     ∃ x, KeyStepB (abs b.g).now (abs b'.g).now .sweptLive (some x) none ∧ (abs b.g).cells 1 = some x ∧
       SweeperRemoves b (.sweeper none) 1 :=
-  readable_loss_to_sweeper (reach_ent h1) h2 hl hl'
+  readable_loss_is_sweptLive (reach_ent h1) h2 hl hl'
 
 example : ∃ b b', runB entInit sweptLiveRun = .ok b ∧ stepB b (.sweeper none) noO = .ok (b', noO) ∧
     (abs b.g).look 1 = some 100 ∧ (abs b'.g).look 1 = none := ⟨_, _, rfl, rfl, rfl, rfl⟩
